@@ -296,3 +296,125 @@ Theorem C02_obj_history_free : forall o qs,
   obj_history o qs = (map (fun q => fst (obj_call (mkObj (o_root o)) q)) qs, o).
 Proof. exact obj_history_free. Qed.
 Print Assumptions C02_obj_history_free.
+
+(* ---- round 5: the WHOLE of ResourceTreeTraverser.__call__ and find_root are regenerated from the source.
+   [gen_call_preamble] = the statements before `root = self.root` (match dictionary / PATH_INFO / virtual-root
+   header), [gen_call] = preamble ; tail, [gen_find_root_c02] = traversal.find_root over location.lineage. *)
+Theorem C02_gen_call_preamble_is_model : forall q, gen_call_preamble q = call_preamble q.
+Proof. exact gen_call_preamble_is_model. Qed.
+Print Assumptions C02_gen_call_preamble_is_model.
+
+Theorem C02_gen_call_is_model : forall root q, gen_call root q = traverser_call root q.
+Proof. exact gen_call_is_model. Qed.
+Print Assumptions C02_gen_call_is_model.
+
+Theorem C02_gen_call_resolves : forall root q d,
+  gen_call root q = Ok d ->
+  exists path sub vt ctx consumed rest,
+    path_and_subpath q = Ok (path, sub) /\ vroot_tuple_of q = Ok vt /\
+    walk_outcome root (vt ++ gen_split_path_info path) ctx consumed rest /\
+    t_context d = fst ctx /\
+    t_view_name d = view_name_of rest /\
+    t_subpath d = subpath_of sub rest /\
+    t_traversed d = consumed ++ firstn (length vt) rest /\
+    t_virtual_root_path d = vt /\ t_root d = fst root /\
+    ((length vt <= length consumed /\
+        exists v c', descend root vt = Some v /\ t_virtual_root d = fst v /\ consumed = vt ++ c' /\
+                     descend v c' = Some ctx /\ exists suffix, t_context d = fst v ++ suffix)
+     \/ (length consumed < length vt /\ t_virtual_root d = fst root /\
+         exists more, more <> [] /\ vt = consumed ++ more)).
+Proof. exact gen_call_resolves. Qed.
+Print Assumptions C02_gen_call_resolves.
+
+Theorem C02_gen_call_traversed_partial : forall root q,
+  q_vroot q = None -> gen_call root q = spec_traverser root q.
+Proof. exact gen_call_traversed_partial. Qed.
+Print Assumptions C02_gen_call_traversed_partial.
+
+(* when a route matched, PATH_INFO plays no part *)
+Theorem C02_gen_call_preamble_matchdict_wins : forall pi pi' md vr,
+  gen_call_preamble (mkReq pi (Some md) vr) = gen_call_preamble (mkReq pi' (Some md) vr).
+Proof. exact gen_call_preamble_matchdict_wins. Qed.
+Print Assumptions C02_gen_call_preamble_matchdict_wins.
+
+(* the error paths: URLDecodeError exactly for a PATH_INFO (no route matched) whose bytes are not UTF-8; every other
+   exception is the decoder's own (UnicodeEncodeError for non-WSGI text, UnicodeDecodeError / UnicodeEncodeError for
+   the virtual-root header) *)
+Theorem C02_gen_call_errors : forall root q e,
+  gen_call root q = Exc e ->
+  (e = URLDecodeError /\ q_matchdict q = None /\
+     exists raw, q_path_info q = Some raw /\ decode_path_info raw = Exc UnicodeDecodeError)
+  \/ (exists raw, (q_path_info q = Some raw /\ q_matchdict q = None \/ q_vroot q = Some raw)
+                  /\ decode_path_info raw = Exc e /\ e <> URLDecodeError).
+Proof. exact gen_call_errors. Qed.
+Print Assumptions C02_gen_call_errors.
+
+Theorem C02_gen_find_root_is_model : forall tree x, gen_find_root_c02 tree x = find_root_walk tree x.
+Proof. exact gen_find_root_c02_is_model. Qed.
+Print Assumptions C02_gen_find_root_is_model.
+
+(* find_root(resource) is the root of the tree the resource lives in -- for every resource of every tree
+   (nothing about the resource itself is consulted but its __parent__ chain) *)
+Theorem C02_gen_find_root_is_root : forall tree p n,
+  node_at tree p = Some n -> gen_find_root_c02 tree (p, n) = ([], tree).
+Proof. exact gen_find_root_c02_is_root. Qed.
+Print Assumptions C02_gen_find_root_is_root.
+
+(* traverse(resource, '/...') hands the traverser of the resource that the regenerated find_root computes *)
+Theorem C02_traverse_absolute_uses_find_root : forall T root start n path,
+  node_at root start = Some n -> is_ascii (slash :: path) = true ->
+  traverse_with T root start (PStr (slash :: path)) =
+  if has_scheme (slash :: path) then Unsupported
+  else T (gen_find_root_c02 root (start, n))
+         (mkReq (Some (webob_unquote (hd [] (split_on question (slash :: path))))) None None).
+Proof. exact traverse_absolute_uses_find_root. Qed.
+Print Assumptions C02_traverse_absolute_uses_find_root.
+
+Theorem C02_gen_traversal_path_is_model : forall p, gen_traversal_path p = traversal_path p.
+Proof. exact gen_traversal_path_is_model. Qed.
+Print Assumptions C02_gen_traversal_path_is_model.
+
+Theorem C02_gen_traversal_path_normal : forall p l,
+  gen_traversal_path p = Ok l -> Forall normal_seg l.
+Proof. exact gen_traversal_path_normal. Qed.
+Print Assumptions C02_gen_traversal_path_normal.
+
+(* traverse(resource, path) / find_resource: an ABSOLUTE path (text after _join_path_tuple starts with '/') is
+   resolved from the root of the tree whichever resource of the tree is passed; a RELATIVE path is resolved from
+   the resource passed (it is the `root` of the result and the context lies below it) *)
+Theorem C02_traverse_absolute_start_irrelevant : forall T root s1 s2 n1 n2 p r,
+  node_at root s1 = Some n1 -> node_at root s2 = Some n2 ->
+  api_path_text p = Ok (slash :: r) ->
+  traverse_with T root s1 p = traverse_with T root s2 p.
+Proof. exact traverse_absolute_start_irrelevant. Qed.
+Print Assumptions C02_traverse_absolute_start_irrelevant.
+
+Theorem C02_traverse_relative_starts_at_resource : forall root start n p path d,
+  node_at root start = Some n -> api_path_text p = Ok path ->
+  hd_error path <> Some slash ->
+  traverse_api root start p = Ok d ->
+  t_root d = start /\ exists suffix, t_context d = start ++ suffix.
+Proof. exact traverse_relative_starts_at_resource. Qed.
+Print Assumptions C02_traverse_relative_starts_at_resource.
+
+(* falsy-but-valid inputs: an absent or empty PATH_INFO is '/', an absent / '' / () `traverse` entry is '/', an
+   absent `subpath` entry is () -- for every virtual-root header *)
+Theorem C02_gen_call_preamble_falsy_inputs : forall vr sp,
+  gen_call_preamble (mkReq None None vr) = gen_call_preamble (mkReq (Some [47%N]) None vr) /\
+  gen_call_preamble (mkReq (Some []) None vr) = gen_call_preamble (mkReq (Some [47%N]) None vr) /\
+  (forall pi, gen_call_preamble (mkReq pi (Some (mkMd None sp)) vr)
+              = gen_call_preamble (mkReq pi (Some (mkMd (Some (MStr [47%N])) sp)) vr)) /\
+  (forall pi, gen_call_preamble (mkReq pi (Some (mkMd (Some (MStr [])) sp)) vr)
+              = gen_call_preamble (mkReq pi (Some (mkMd (Some (MStr [47%N])) sp)) vr)) /\
+  (forall pi, gen_call_preamble (mkReq pi (Some (mkMd (Some (MTuple [])) sp)) vr)
+              = gen_call_preamble (mkReq pi (Some (mkMd (Some (MStr [47%N])) sp)) vr)) /\
+  (forall pi tr, gen_call_preamble (mkReq pi (Some (mkMd tr None)) vr)
+                 = gen_call_preamble (mkReq pi (Some (mkMd tr (Some (MTuple [])))) vr)).
+Proof. exact gen_call_preamble_falsy_inputs. Qed.
+Print Assumptions C02_gen_call_preamble_falsy_inputs.
+
+(* any history of requests on ONE traverser object = the regenerated __call__ applied to each request *)
+Theorem C02_gen_call_obj_history : forall o qs,
+  obj_history o qs = (map (gen_call (o_root o)) qs, o).
+Proof. exact gen_call_obj_history. Qed.
+Print Assumptions C02_gen_call_obj_history.
